@@ -56,8 +56,10 @@ func (c *Ctx) globalAddr(g *ssa.Global) T {
 	name := "glob_" + sanitize(shorten(g.String()))
 	if !c.globals[name] {
 		c.globals[name] = true
-		c.R.UFun(name, fmt.Sprintf("(declare-const %s Ref)\n(assert ((_ is robj) %s))\n(assert (select Alloc_0 %s))", name, name, name))
+		c.R.UFun(name, fmt.Sprintf("(declare-const %s Ref)\n(assert ((_ is robj) %s))", name, name))
 		c.R.Heap(HAlloc, ArraySort("Ref", "Bool"))
+		// package-level variables exist when the function is entered (emitted after the heap declarations)
+		c.R.axioms = append(c.R.axioms, fmt.Sprintf("(assert (select Alloc_0 %s))", name))
 	}
 	return T{name, "Ref"}
 }
@@ -371,6 +373,9 @@ func (fr *frame) execInstr(in ssa.Instruction, st *State) {
 		fr.bindResults(x, res)
 	case *ssa.Go:
 		c.comment("go statement ignored (spawn has no effect on the caller's state)")
+		if c.topFrame != nil && c.topFrame.contract != nil && c.topFrame.contract.Sequential {
+			c.oblige(st, "go-statement", "the function is declared sequential: no goroutine may be started here", False, x.Pos())
+		}
 	case *ssa.Defer:
 		if len(fr.inLoops[x.Block()]) > 0 {
 			// deferred unlocks inside loops are counted in ghost heaps
